@@ -128,7 +128,7 @@ def run(ctx):
     drift = []
     rej = collections.Counter()
     if "model-build" not in ctx["broken"]:
-        sub = list(range(0, len(cases), 5 if tier == "quick" else 37))
+        sub = list(range(0, len(cases), 5 if tier == "quick" else 2))
         mres = Model().run([case_model(cases[i]) for i in sub])
         for i, m in zip(sub, mres):
             if "bad" in m:
